@@ -83,7 +83,7 @@ func pick[T any](t *rapid.T, label string, xs []T) T {
 }
 
 var intPool = []int64{0, 1, 2, 3, 7, 10, 42, 255, 1 << 31, 1 << 53, math.MaxInt64, 14, 30, 254, 0xbe, 0x1e2e, 0xabcde, 0xe0e, 1 << 62}
-var floatPool = []float64{0.5, 1.5, 2.0, 1e10, 1e-7, 3.141592653589793, 1e308, math.Inf(1), 0.0, 9223372036854775808.0, 18446744073709551616.0, 4294967296.0, 5e-324}
+var floatPool = []float64{975.2416188605783, 0.9007199254740993, 361.80548048031693, 123456.78901234567, 0.1234567890123456, 9007199254740.993, 0.5, 1.5, 2.0, 1e10, 1e-7, 3.141592653589793, 1e308, math.Inf(1), 0.0, 9223372036854775808.0, 18446744073709551616.0, 4294967296.0, 5e-324}
 
 func (p *Profile) literal(t *rapid.T) *Node {
 	switch rapid.IntRange(0, 7).Draw(t, "lit") {
